@@ -21,6 +21,8 @@ func gen(t *rapid.T) mqrig.Case {
 		return mqrig.GenWindDown(t)
 	case 3:
 		return mqrig.GenBacklog(t)
+	case 4:
+		return mqrig.GenFirstSendRace(t)
 	}
 	return mqrig.Gen(t, false)
 }
